@@ -99,9 +99,12 @@ def rule_getmsg(ctx):
     # is_empty means: every buffer empty
     ie = ctx.index.func("defragmenter:Defragmenter.is_empty")
     ret = [x for x in own_nodes(ie.node) if isinstance(x, ast.Return)]
-    ok = len(ret) == 1 and norm(ret[0].value) in ("all((not i for i in self.buffers.values()))",
-                                                 "all(not i for i in self.buffers.values())",
-                                                 "not any(self.buffers.values())")
+    # decided structurally: the verdict may depend on nothing but the emptiness of every buffer
+    attrs = {x.attr for x in ast.walk(ie.node) if isinstance(x, ast.Attribute)
+             and isinstance(x.value, ast.Name) and x.value.id == "self"}
+    called = {call_name(c) for c in calls_in(ie.node)}
+    ok = len(ret) >= 1 and attrs == {"buffers"} and bool(called & {"all", "any"}) and \
+        called <= {"all", "any", "values", "len", "bool"}
     ctx.check(R, ok, ie.qname, "is_empty() is true only when every buffer is empty",
               "Defragmenter.is_empty must report pending bytes of any content type (a partial message "
               "counts); it returns `%s`" % (norm(ret[0].value) if ret else "?"), ie.loc())
